@@ -9,11 +9,8 @@ pub mod aspec {
 
     pub open spec fn slen(s: &String) -> int { s@.len() as int }
 
-    pub uninterp spec fn string_byte_len(s: &String) -> nat;
-
-    pub assume_specification[ String::len ](s: &String) -> (r: usize)
-        ensures r == string_byte_len(s),
-    ;
+    /// number of UTF-8 bytes of a String (what String::len() returns: str_bytes.rs)
+    pub open spec fn string_byte_len(s: &String) -> nat { crate::strb::str_bytes(s@).len() }
 
     pub open spec fn text_space(o: Option<String>) -> int {
         match o {
